@@ -46,6 +46,7 @@ func c19Pool(c *vrep.Ctx) {
 	tasks := c.ParamInt("tasks", 2)
 	headers := c.Param("headers", "no") == "yes"
 	budget := c.ParamInt("budget", c.Pick(1, 2))
+	postYield := c.Param("postyield", "no") == "yes" // scheduling points after operations too
 	pol := vsync.Preemption
 	if c.Param("policy", "preemption") == "delay" {
 		pol = vsync.Delay
@@ -111,9 +112,11 @@ func c19Pool(c *vrep.Ctx) {
 	c.Assume("Match is one atomic step for the pool exploration; log output and file reads are real but deterministic")
 	c.Bound(c.Param("policy", "preemption")+"_bound", budget)
 	c.Bound("files", nfiles)
+	c.Bound("points_after_operations", postYield)
 	c.Bound("tasks", tasks)
 	body := func(r *vx.Run) {
 		s := vsync.New(r, pol)
+		s.PostYield = postYield
 		b := &ClassifierBackend{classifier: cl}
 		var errs []error
 		var atReturn []string
